@@ -36,10 +36,12 @@ Notation W m := (flat_map (writes legacy tbl) (mview m)).
 Definition row_okb (d : desc) : bool :=
   match find_desc tbl (d_id d) with Some d' => desc_eqb d d' | None => false end &&
   (negb (is_arr (d_dt d)) || ((0 <? d_esize d) && (d_esize d mod nparts d =? 0))).
+Definition fixed_okb (d : desc) : bool := negb (dtype_eqb (d_dt d) DPointerFixed) || (0 <? d_esize d).
 
 Definition whole_table_okb : bool :=
   forallb row_okb L &&
-  match writes legacy tbl (fp_field fpid true), writes legacy tbl (fp_field fpid false) with [], [] => true | _, _ => false end.
+  (forallb fixed_okb L &&
+   match writes legacy tbl (fp_field fpid true), writes legacy tbl (fp_field fpid false) with [], [] => true | _, _ => false end).
 
 (* ---------- well-formedness of a memory: the persisted state.  Arrays hold exactly count*element_size bytes
    (allocation slack beyond the count is not part of the persisted state; the per-descriptor theorem
@@ -80,6 +82,13 @@ Lemma row_ok : forall d, In d L -> row_okb d = true.
 Proof.
   intros d Hd. unfold whole_table_okb in Htbl. apply andb_true_iff in Htbl. destruct Htbl as [H _].
   rewrite forallb_forall in H. auto.
+Qed.
+
+Lemma fixed_ok : forall d, In d L -> d_dt d = DPointerFixed -> 0 < d_esize d.
+Proof.
+  intros d Hd E. unfold whole_table_okb in Htbl. apply andb_true_iff in Htbl. destruct Htbl as [_ H].
+  apply andb_true_iff in H. destruct H as [H _]. rewrite forallb_forall in H. specialize (H d Hd).
+  unfold fixed_okb in H. rewrite E in H. cbn in H. lia.
 Qed.
 
 Lemma find_row : forall d, In d L -> find_desc tbl (d_id d) = Some d.
@@ -145,7 +154,10 @@ Proof.
   (* fixed *)
   destruct (m (d_member d, O)) as [b|[b|]] eqn:Em; try discriminate Hm; try contradiction.
   apply N.eqb_eq in Hm. destruct Hf as [<-|[]]. cbn [f_type f_payload] in Hkv. rewrite Hfind, Edt in Hkv.
-  destruct Hkv as [Hkv|[]]. inversion Hkv; subst. rewrite Em. rewrite take_all by auto. reflexivity.
+  pose proof (fixed_ok d Hd Edt) as Hpos.
+  destruct Hkv as [Hkv|[]]. rewrite take_all in Hkv by auto. rewrite Hm in Hkv.
+  destruct (d_esize d =? 0) eqn:E0; [apply N.eqb_eq in E0; lia|].
+  inversion Hkv; subst. rewrite Em. reflexivity.
 Qed.
 
 Lemma W_values : forall m k v, mem_wf m -> In (k, v) (W m) -> v = m k.
@@ -247,6 +259,7 @@ Proof.
   rewrite flat_map_app. cbn [flat_map]. rewrite app_nil_r.
   assert (Hfp : writes legacy tbl (fp_field fpid fp) = []).
   { unfold whole_table_okb in Htbl. apply andb_true_iff in Htbl. destruct Htbl as [_ H].
+    apply andb_true_iff in H. destruct H as [_ H].
     destruct (writes legacy tbl (fp_field fpid true)) eqn:E1; [|discriminate].
     destruct (writes legacy tbl (fp_field fpid false)) eqn:E2; [|discriminate].
     destruct fp; auto. }
